@@ -1244,6 +1244,9 @@ class RefAPI:
     dense_rank = staticmethod(dense_rank)
     lit = staticmethod(lit)
     Int64 = _Ty(INT)
+    Int8 = _Ty(INT)
+    Int16 = _Ty(INT)
+    Int32 = _Ty(INT)
     Int = _Ty(INT)
     Float64 = _Ty(REAL)
     Float = _Ty(REAL)
